@@ -603,12 +603,14 @@ func (f *frame) makeInterface(x *ssa.MakeInterface) {
 	tag := vc.typeTag(t)
 	if isRefLike(t) {
 		f.setVal(x, x.Type(), sx("mk-iface", tag, f.term(x.X)))
+		vc.ifaceConcrete[f.vals[x].t] = ifaceInfo{typ: t, val: f.val(x.X)}
 		return
 	}
 	// box the value
 	b := f.allocRef("box")
 	f.st = f.storeAt(Val{t: b}, t, f.term(x.X), f.st)
 	f.setVal(x, x.Type(), sx("mk-iface", tag, b))
+	vc.ifaceConcrete[f.vals[x].t] = ifaceInfo{typ: t, val: f.val(x.X)}
 }
 
 // implementsPred returns a term saying that the dynamic type of iface value v implements interface type it.
